@@ -25,6 +25,12 @@ type c07Case struct {
 	RemoteAS uint32     `json:"remote_as"`
 	Bursts   [][]string `json:"bursts"`
 	Delays   []int64    `json:"delays,omitempty"`
+	// Prelude: what the peer went through before the script starts. "aborted-in" /
+	// "reset-in": an earlier inbound connection was closed / reset by the remote
+	// right after corebgp's OPEN (a TCP failure in OpenSent); "ceased-in-oc" /
+	// "closed-in-oc": it reached OpenConfirm and was then ended by a Cease / a plain
+	// close. The collision that follows must be resolved as if nothing had happened.
+	Prelude string `json:"prelude,omitempty"`
 }
 
 func (c c07Case) burstOf(ev string) int {
@@ -89,9 +95,9 @@ func c07Prop(t *testing.T, r *hx.Run, sub string) func(c c07Case) hx.Verdict {
 		} else if c.burstOf("OI") == c.burstOf("OO") {
 			second = "same-burst"
 		}
-		v := hx.Verdict{Class: fmt.Sprintf("collision=%v/%s/%s", collision, dom, second)}
+		v := hx.Verdict{Class: fmt.Sprintf("collision=%v/%s/%s/prelude=%v", collision, dom, second, c.Prelude != "")}
 		if collision {
-			v.NT = fmt.Sprintf("%s/%s/%d/%d/%v/%v", c.LocalID, c.RemoteID, c.LocalAS, c.RemoteAS, c.Bursts, c.Delays)
+			v.NT = fmt.Sprintf("%s/%s/%d/%d/%v/%v/%s", c.LocalID, c.RemoteID, c.LocalAS, c.RemoteAS, c.Bursts, c.Delays, c.Prelude)
 		}
 		p := world.PeerSpec{Remote: "10.0.0.2", LocalAS: c.LocalAS, RemoteAS: c.RemoteAS, Hold: 90}
 		remoteID := ipToU32(c.RemoteID)
@@ -126,6 +132,34 @@ func c07Prop(t *testing.T, r *hx.Run, sub string) func(c c07Case) hx.Verdict {
 			if conns["out"] == nil {
 				fail("setup", "corebgp did not dial")
 				return
+			}
+			if c.Prelude != "" {
+				pc := w.Inbound(p.Remote, "10.0.0.1")
+				w.Settle()
+				if len(pc.Snapshot().Bytes()) == 0 {
+					fail("setup", "prelude: the inbound connection was not served")
+					return
+				}
+				switch c.Prelude {
+				case "reset-in":
+					pc.RemoteReset()
+				case "ceased-in-oc", "closed-in-oc":
+					// the earlier inbound connection got as far as OpenConfirm
+					pc.RemoteSend(world.RemoteOpen(p, pc, 90, remoteID).Frame(), nil)
+					w.Settle()
+					if c.Prelude == "ceased-in-oc" {
+						pc.RemoteSend(wire.Notif{Code: 6, Sub: 2}.Frame(), nil)
+						w.Settle()
+					}
+					pc.RemoteClose()
+				default:
+					pc.RemoteClose()
+				}
+				w.Settle()
+				if !pc.Snapshot().LocalClosed {
+					fail("prelude-connection-not-dropped", "an inbound connection closed by the remote in OpenSent is still open on corebgp's side")
+					return
+				}
 			}
 			for _, burst := range c.Bursts {
 				for _, ev := range burst {
@@ -341,6 +375,19 @@ func TestC07(t *testing.T) {
 		}
 	}), c07Prop(t, r, "all_orders_x_configs"))
 
+	// every arrival order again, after an inbound connection that failed at TCP level in OpenSent
+	hx.Enum(r, t, "all_orders_after_aborted_inbound", int64(len(orders)*2*4), iter.Seq[c07Case](func(yield func(c07Case) bool) {
+		for _, ord := range orders {
+			for _, cfg := range []c07Cfg{c07Cfgs[0], c07Cfgs[2]} {
+				for _, pre := range []string{"aborted-in", "reset-in", "ceased-in-oc", "closed-in-oc"} {
+					if !yield(c07Case{LocalID: cfg.lid, RemoteID: cfg.rid, LocalAS: cfg.las, RemoteAS: cfg.ras, Bursts: ord, Prelude: pre}) {
+						return
+					}
+				}
+			}
+		}
+	}), c07Prop(t, r, "all_orders_after_aborted_inbound"))
+
 	hx.Rapid(r, t, "generated", r.N(3000, 30000), func(rt *rapid.T) c07Case {
 		ord := orders[rapid.IntRange(0, len(orders)-1).Draw(rt, "order")]
 		c := c07Case{Bursts: ord}
@@ -368,6 +415,7 @@ func TestC07(t *testing.T) {
 		for i := 0; i < n; i++ {
 			c.Delays = append(c.Delays, rapid.Int64Range(0, 3).Draw(rt, "delay"))
 		}
+		c.Prelude = pick(rt, "prelude", "", "", "aborted-in", "reset-in", "ceased-in-oc", "closed-in-oc")
 		return c
 	}, c07Prop(t, r, "generated"))
 }
